@@ -7,6 +7,7 @@ import (
 	"go/token"
 	"go/types"
 	"os"
+	"reflect"
 	"sort"
 	"strings"
 )
@@ -214,6 +215,97 @@ func ruleConv(c *Ctx) {
 			}
 		}
 		c.R.Check(ok, "conv.valOf", "CONV-2 nil tested before the reflected value is used", vlOf.Pos(), "`if isNil(rv) { panic }` dominates every reflect accessor", "a reflect accessor can run on a nil/invalid value")
+	}
+	// CONV-2 what counts as absent: every nil-able kind the converters accept (pointer, interface, slice, map) is nil-tested
+	if in := c.FuncDecl("conv", "isNil"); in != nil {
+		covered := map[int64]bool{}
+		invalidIsNil := false
+		for _, a := range c.asserted(in.Body) {
+			_ = a
+		}
+		inspectNoLit(in.Body, func(x ast.Node) bool {
+			switch st := x.(type) {
+			case *ast.IfStmt:
+				if strings.Contains(src(st.Cond), "IsValid()") && strings.HasPrefix(strings.TrimSpace(src(st.Cond)), "!") && len(st.Body.List) == 1 {
+					if r, ok := st.Body.List[0].(*ast.ReturnStmt); ok && len(r.Results) == 1 && src(r.Results[0]) == "true" {
+						invalidIsNil = true
+					}
+				}
+			case *ast.SwitchStmt:
+				if st.Tag == nil || !strings.Contains(src(st.Tag), "Kind()") {
+					return true
+				}
+				for _, cl := range st.Body.List {
+					cc := cl.(*ast.CaseClause)
+					retIsNil := false
+					if len(cc.Body) == 1 {
+						if r, ok := cc.Body[0].(*ast.ReturnStmt); ok && len(r.Results) == 1 {
+							if ce, ok := unparen(r.Results[0]).(*ast.CallExpr); ok && c.calleeName(ce) == "reflect.Value.IsNil" {
+								retIsNil = true
+							}
+						}
+					}
+					if !retIsNil {
+						continue
+					}
+					for _, e := range cc.List {
+						if v := c.constOf(e); v != nil {
+							if k, ok := constant.Int64Val(constant.ToInt(v)); ok {
+								covered[k] = true
+							}
+						}
+					}
+				}
+			}
+			return true
+		})
+		// an if-chain form: k == reflect.X || ... -> return v.IsNil()
+		inspectNoLit(in.Body, func(x ast.Node) bool {
+			is, ok := x.(*ast.IfStmt)
+			if !ok || len(is.Body.List) != 1 {
+				return true
+			}
+			r, ok := is.Body.List[0].(*ast.ReturnStmt)
+			if !ok || len(r.Results) != 1 {
+				return true
+			}
+			ce, ok := unparen(r.Results[0]).(*ast.CallExpr)
+			if !ok || c.calleeName(ce) != "reflect.Value.IsNil" {
+				return true
+			}
+			var walk func(e ast.Expr)
+			walk = func(e ast.Expr) {
+				e = unparen(e)
+				if b, ok := e.(*ast.BinaryExpr); ok {
+					if b.Op == token.LOR {
+						walk(b.X)
+						walk(b.Y)
+						return
+					}
+					if b.Op == token.EQL {
+						for _, side := range []ast.Expr{b.X, b.Y} {
+							if v := c.constOf(side); v != nil {
+								if k, ok := constant.Int64Val(constant.ToInt(v)); ok {
+									covered[k] = true
+								}
+							}
+						}
+					}
+				}
+			}
+			walk(is.Cond)
+			return true
+		})
+		need := map[string]int64{"Interface": int64(reflect.Interface), "Map": int64(reflect.Map), "Pointer": int64(reflect.Ptr), "Slice": int64(reflect.Slice)}
+		missing := []string{}
+		for _, nm := range []string{"Interface", "Map", "Pointer", "Slice"} {
+			if !covered[need[nm]] {
+				missing = append(missing, nm)
+			}
+		}
+		c.R.Check(len(missing) == 0 && invalidIsNil, "conv.isNil", "CONV-2 every nil-able kind the converters accept is nil-tested", in.Pos(), "invalid -> nil; Interface, Map, Pointer, Slice -> v.IsNil()", "isNil does not test "+strings.Join(missing, ", ")+" values for nil (or an invalid value is not nil): a nil host "+strings.Join(missing, "/")+" is then converted as if present instead of becoming Nothing of its optional type, so programs over it are accepted without get(.., default) and fail or misbehave on the absence")
+	} else {
+		c.R.Anchor("conv.isNil")
 	}
 	if vs := c.FuncDecl("conv", "valOfStruct"); vs != nil {
 		var nilIf *ast.IfStmt
